@@ -38,6 +38,8 @@ theorem n_STARTTLS : ofAscii "STARTTLS" = [83, 84, 65, 82, 84, 84, 76, 83] := by
   unfold send; split <;> (try split) <;> rfl
 @[simp] theorem send_remoteDomain (s : Sess) (n : Nat) : (send s n).remoteDomain = s.remoteDomain := by
   unfold send; split <;> (try split) <;> rfl
+@[simp] theorem send_tls (s : Sess) (n : Nat) : (send s n).tls = s.tls := by
+  unfold send; split <;> (try split) <;> rfl
 
 theorem send_of_budget_none (s : Sess) (n : Nat) (h : s.budget = none) : send s n = s := by
   unfold send; rw [h]
@@ -52,6 +54,7 @@ def erase (s : Sess) : Sess := { s with budget := none, sendErr := false }
 @[simp] theorem erase_sender (s : Sess) : (erase s).sender = s.sender := rfl
 @[simp] theorem erase_rcpts (s : Sess) : (erase s).rcpts = s.rcpts := rfl
 @[simp] theorem erase_remoteDomain (s : Sess) : (erase s).remoteDomain = s.remoteDomain := rfl
+@[simp] theorem erase_tls (s : Sess) : (erase s).tls = s.tls := rfl
 @[simp] theorem erase_budget (s : Sess) : (erase s).budget = none := rfl
 @[simp] theorem erase_sendErr (s : Sess) : (erase s).sendErr = false := rfl
 
@@ -66,6 +69,13 @@ theorem erase_eq_self (s : Sess) (h1 : s.budget = none) (h2 : s.sendErr = false)
 @[simp] theorem reset_sender (s : Sess) : (reset s).sender = none := rfl
 @[simp] theorem reset_rcpts (s : Sess) : (reset s).rcpts = [] := rfl
 @[simp] theorem reset_remoteDomain (s : Sess) : (reset s).remoteDomain = s.remoteDomain := rfl
+@[simp] theorem reset_tls (s : Sess) : (reset s).tls = s.tls := rfl
+@[simp] theorem advertises_send (e : Env) (s : Sess) (n : Nat) : advertises e (send s n) = advertises e s := by
+  simp [advertises]
+@[simp] theorem advertises_erase (e : Env) (s : Sess) : advertises e (erase s) = advertises e s := rfl
+@[simp] theorem ehloLines_erase (e : Env) (s : Sess) : ehloLines e (erase s) = ehloLines e s := rfl
+theorem ehloLines_cases (e : Env) (s : Sess) : ehloLines e s = 4 ∨ ehloLines e s = 5 := by
+  unfold ehloLines; split <;> simp
 theorem reset_st (s : Sess) : (reset s).st = if s.st = .greet then .greet else .ready := by
   simp [reset]
 theorem reset_st_of_ne (s : Sess) (h : s.st ≠ .greet) : (reset s).st = .ready := by
@@ -76,17 +86,21 @@ theorem reset_st_greet (s : Sess) (h : s.st = .greet) : (reset s).st = .greet :=
 
 /-! ### per-state command handlers (definitionally the branches of `handleCmd`) -/
 
-def greetCmd (s : Sess) (name arg : Bytes) (acc : List Ev) : Sess × List Ev :=
+def greetCmd (e : Env) (s : Sess) (name arg : Bytes) (acc : List Ev) : Sess × List Ev :=
   if name == Bytes.ofAscii "HELO" then
     if arg.isEmpty then say s 501 acc
     else say { s with st := .ready, remoteDomain := arg.takeWhile (· != 32) } 250 acc
   else if name == Bytes.ofAscii "EHLO" then
     if arg.isEmpty then say s 501 acc
-    else ({ send s 4 with st := .ready, remoteDomain := arg.takeWhile (· != 32) }, .reply [250, 250, 250, 250] :: acc)
+    else ({ send s (ehloLines e s) with st := .ready, remoteDomain := arg.takeWhile (· != 32) },
+          .reply (List.replicate (ehloLines e s) 250) :: acc)
   else say s 503 acc
 
 def readyCmd (e : Env) (s : Sess) (name arg : Bytes) (acc : List Ev) : Sess × List Ev :=
-  if name == Bytes.ofAscii "STARTTLS" then say s 454 acc
+  if name == Bytes.ofAscii "STARTTLS" then
+    if !e.tlsEnabled then say s 454 acc
+    else if s.tls then say s 454 acc
+    else say { s with st := .greet, tls := true } 220 acc
   else if name == Bytes.ofAscii "AUTH" then
     let (n, method) := splitN3 arg
     if method == Bytes.ofAscii "PLAIN" then (if n != 2 then say s 500 acc else say s 235 acc)
@@ -107,7 +121,7 @@ def mailCmd (e : Env) (s : Sess) (name arg : Bytes) (acc : List Ev) : Sess × Li
 
 def stateCmd (e : Env) (s : Sess) (name arg : Bytes) (acc : List Ev) : Sess × List Ev :=
   match s.st with
-  | .greet => greetCmd s name arg acc
+  | .greet => greetCmd e s name arg acc
   | .ready => readyCmd e s name arg acc
   | .mail => mailCmd e s name arg acc
   | _ => (s, acc)
@@ -322,7 +336,12 @@ inductive Step (e : Env) (s : Sess) (line : Bytes) : Sess → List Ev → Prop
   | helo (arg : Bytes) (hp : parseCmd line = .cmd (ofAscii "HELO") arg) (hs : s.st = .greet) (ha : arg ≠ []) :
       Step e s line (send { s with st := .ready, remoteDomain := arg.takeWhile (· != 32) } 1) [.reply [250]]
   | ehlo (arg : Bytes) (hp : parseCmd line = .cmd (ofAscii "EHLO") arg) (hs : s.st = .greet) (ha : arg ≠ []) :
-      Step e s line { send s 4 with st := .ready, remoteDomain := arg.takeWhile (· != 32) } [.reply [250, 250, 250, 250]]
+      Step e s line { send s (ehloLines e s) with st := .ready, remoteDomain := arg.takeWhile (· != 32) }
+        [.reply (List.replicate (ehloLines e s) 250)]
+  /-- the accepted STARTTLS: "220", the connection is wrapped, tlsState recorded, back to GREET -/
+  | starttls (arg : Bytes) (hp : parseCmd line = .cmd (ofAscii "STARTTLS") arg) (hs : s.st = .ready)
+      (he : e.tlsEnabled = true) (ht : s.tls = false) :
+      Step e s line (send { s with st := .greet, tls := true } 1) [.reply [220]]
   | authLogin (arg : Bytes) (hp : parseCmd line = .cmd (ofAscii "AUTH") arg) (hs : s.st = .ready) :
       Step e s line (send { s with st := .login } 1) [.reply [334]]
   /-- MAIL refused by the origin policy: the sender is recorded but the state stays READY -/
@@ -459,7 +478,15 @@ theorem handleLine_step (e : Env) (s : Sess) (line : Bytes) :
       · rename_i hs
         unfold readyCmd
         split
-        · exact .plain _ h1 h2 (by simp)
+        · rename_i hn
+          have hn : name = ofAscii "STARTTLS" := by simpa using hn
+          subst hn
+          split
+          · exact .plain _ h1 h2 (by simp)
+          · split
+            · exact .plain _ h1 h2 (by simp)
+            · rename_i he ht
+              exact .starttls arg hp hs (by simpa using he) (by simpa using ht)
         split
         · rename_i hn
           have hn : name = ofAscii "AUTH" := by simpa using hn
@@ -606,11 +633,11 @@ theorem stateCmd_erase (e : Env) (s : Sess) (name arg : Bytes) (acc : List Ev) :
   unfold stateCmd
   simp only [erase_st]
   split
-  · unfold greetCmd; repeat' split
+  · unfold greetCmd; simp only [ehloLines_erase]; repeat' split
     all_goals simp [say]
     all_goals rfl
-  · unfold readyCmd; repeat' split
-    all_goals first | exact mailFrom_erase .. | simp [say]
+  · unfold readyCmd; simp only [erase_tls]; repeat' split
+    all_goals first | exact mailFrom_erase .. | simp_all [say]
     all_goals rfl
   · unfold mailCmd
     simp only [erase_rcpts]
